@@ -252,6 +252,15 @@ example :
       some [.binary .lt (.var "x" n7) (.const 4), .binary .lt (.var "args.n" n7) (.const 4)] := by
   decide
 
+/-- `y = this.take!()` (result type base.u8[..= 9]): the facts about fields and about `y`
+go, the others stay, and the checker learns `y <= 9` -/
+example :
+    checkS [] [.binary .lt (.var "this.f" f100) (.const 4), .binary .lt (.var "y" u8) (.const 4),
+               .binary .lt (.var "args.n" n7) (.const 4)]
+      (.callAssign (.var "y" u8) ⟨.u8, none, some 9⟩ []) =
+      some [.binary .lt (.var "args.n" n7) (.const 4), .binary .le (.var "y" u8) (.const 9)] := by
+  decide
+
 /-- a loop: `while x < 5, inv x <= 5 { x += 1 }` is accepted from `x == 0`, and the
 checker goes on with exactly the invariant -/
 example :
@@ -290,15 +299,16 @@ example :
 --
 -- Proved above: the fragment F1-flow = scalar locals / arguments / fields (+ array
 -- element READS in conditions and right-hand sides), assignment and op-assignment to
--- variables, assert (plain and `via` any listed axiom), if / else-if / else, while with
--- pre / inv / post, break / continue of any enclosing loop, return, impure calls with
--- scalar arguments, yield and coroutine calls — all nested without bound.
+-- variables and array elements, assert (plain and `via` any listed axiom), if / else-if /
+-- else, while with pre / inv / post, break / continue of any enclosing loop, return,
+-- impure calls with scalar arguments (as statements, or with their value assigned to a
+-- variable), yield and coroutine calls — all nested without bound.
 -- Not in the model (covered by the search only: harness/cmd/c02/flow*.go evaluates the
 -- REAL checker's facts on concrete executions): stores to array / slice elements and the
 -- aliasing they bring (genuine unsoundness of the real checker, KNOWN_FINDINGS C02
 -- `false-fact:…:alias`), slices and their lengths, by-reference arguments of impure
--- calls, I/O (`optimizeIOMethodAdvance`, can_undo_byte), `=?`, calls whose value is
--- assigned, `iterate`, `io_bind` / `io_limit`, `choose`, pointer-typed locals, and the
+-- calls, I/O (`optimizeIOMethodAdvance`, can_undo_byte), `=?`, pure-call values in
+-- facts, `iterate`, `io_bind` / `io_limit`, `choose`, pointer-typed locals, and the
 -- tie between `wtS` and lang/check/type.go (sampled by the correspondence ops).
 -/
 
